@@ -50,8 +50,14 @@ def run(ctx, rep):
     # assembly in encoder()
     from rules.shared import core_of
     encf = core_of(ctx, "encoder", "smiles_to_mol")
-    joins = [n for n in own_nodes(encf.node) if isinstance(n, ast.Call) and isinstance(n.func, ast.Attribute) and n.func.attr == "join"
-             and isinstance(n.func.value, ast.Constant)]
+    # the assembly: encoder() itself plus any helper whose result encoder() returns directly (``return _join(frags, ...)``)
+    scopes = [encf]
+    rets = [r.value for r in own_nodes(encf.node) if isinstance(r, ast.Return) and r.value is not None]
+    for site in ctx.cg.sites(encf):
+        if any(site.node is x for rv in rets for x in ast.walk(rv)):
+            scopes.extend(g for g in site.callees if g not in scopes and g.cls is None)
+    joins = [n for sc in scopes for n in own_nodes(sc.node) if isinstance(n, ast.Call) and isinstance(n.func, ast.Attribute)
+             and n.func.attr == "join" and isinstance(n.func.value, ast.Constant)]
     seps = sorted(j.func.value.value for j in joins)
     ok = seps == ["", "."]
     rep.ob("K1", ok, encf.node, encf, construct="assembly separators %r" % (seps,), how="tokens joined with '', fragments with '.'",
@@ -65,12 +71,18 @@ def run(ctx, rep):
     if frag is None:
         raise AnalysisError("fragment printer not found")
     loop = [n for n in frag.node.body if isinstance(n, ast.While)][0]
-    first_calls = []
-    for st in loop.body[:3]:
+    # an atom token (result of the atom-token printer) is emitted by a straight-line statement at the top of the loop
+    from rules.shared import emits_name
+    tokvars = set()
+    ok = False
+    for st in loop.body:
+        if isinstance(st, (ast.If, ast.For, ast.While, ast.Try, ast.With)):
+            break
+        if isinstance(st, ast.Assign) and isinstance(st.value, ast.Call) and unparse(st.value.func).endswith("_atom_to_selfies"):
+            tokvars |= {t.id for t in st.targets if isinstance(t, ast.Name)}
         for n in ast.walk(st):
-            if isinstance(n, ast.Call):
-                first_calls.append(unparse(n.func))
-    ok = any(c.endswith("_atom_to_selfies") for c in first_calls) and any(c.endswith(".append") for c in first_calls)
+            if isinstance(n, ast.Call) and any(emits_name(ctx, frag, n, v) for v in tokvars):
+                ok = True
     rep.ob("K1", ok, loop, frag, construct="first action of the fragment printer", how="an atom token is appended unconditionally",
            witness=None if ok else "a fragment can be printed without any token (empty fragment -> '..' or leading '.')", key="nonempty-fragment")
     # ---- K2 one tokenizer
